@@ -70,6 +70,13 @@ fn touch(addr: usize) {
     }
 }
 
+/// Scheduling point of `park` / `unpark`: a relaxed RMW of a loom atomic that
+/// belongs to the parked / unparked thread (see `thread::Thread`).
+pub(crate) fn park_token(id: loom::thread::ThreadId) {
+    let key = crate::ctl::with_thread_of(id, |_, i| 16 + 8 * i);
+    touch(key);
+}
+
 fn access(addr: usize, write: bool, what: &str) {
     touch(addr);
     if addr == 0 || !crate::ctl::tracking() {
